@@ -642,7 +642,7 @@ let rec exec (toks : string list) (side : string list) (impl_result : string) : 
          match M.sk_foreach (mtable_of g side) s with
          | None -> "panic"
          | Some (s', l) -> g.sk <- Some s';
-           xstr (List.fold_left (fun acc (v, c) -> M.fadd acc (M.fmul (M.q2f v) (M.q2f c))) (f64_of_hex "0000000000000000") l)
+           xstr (M.sk_get_sum_f64 l)      (* Sketch/SketchSum.v; float error: Props/SketchSum.v C12_f_sum_accuracy *)
        end)
   (* NewDDSketchWithExactSummaryStatisticsFromData: refused iff emptiness of the sketch and count = 0 of the statistics disagree; the result wraps
      the very sketch and statistics objects it was given, so the model stops following those two registers (no aliasing in a functional model) *)
@@ -650,12 +650,12 @@ let rec exec (toks : string list) (side : string list) (impl_result : string) : 
     let (g0, s0) = get_sk k0 in
     let st = Hashtbl.find statsr t in
     if s0.M.sk_stats <> None then raise Unsupported else
-    if M.sk_is_empty s0 <> M.feq (M.su_count st) (f64_of_hex "0000000000000000") then "err other"
-    else begin
-      let g = new_reg g0.mn g0.mx (Some { s0 with M.sk_stats = Some st }) in
-      g.gm <- g0.gm; g.tbl <- Hashtbl.copy g0.tbl; Hashtbl.replace sketches k g;
-      g0.sk <- None; Hashtbl.remove statsr t; "ok"
-    end
+    (match M.sk_from_data s0 st with          (* Sketch/SketchSum.v: the refusal rule (Props/SketchSum.v C10_from_data_spec) *)
+     | None -> "err other"
+     | Some sk ->
+       let g = new_reg g0.mn g0.mx (Some sk) in
+       g.gm <- g0.gm; g.tbl <- Hashtbl.copy g0.tbl; Hashtbl.replace sketches k g;
+       g0.sk <- None; Hashtbl.remove statsr t; "ok")
   | ["kforeach"; k; n] ->
     let (g, s) = get_sk k in
     absorb_vals g side;
